@@ -379,3 +379,5 @@ def run(ck: Check, repo: Repo) -> None:
     langs = {"_IGNORE_MESON_PARENT_DIR_PATTERNS": (alpha, union(alpha, [Lang.from_regex(x.pattern, x.flags, alpha, "match") for x in impl]))}
     rl.instance("meson-parent-language", {"patterns": [x.pattern for x in impl]})
     c03.rule_decision(ck, repo, langs, "R6")
+    r7 = ck.rule("R7", "the subset report examines subset_files(F) whenever F was given, even when F is empty (shared with C03-R4)")
+    c03.file_list_source(r7, repo)
